@@ -7,6 +7,7 @@ package main
 import (
 	"bufio"
 	"bytes"
+	"compress/gzip"
 	"context"
 	"encoding/json"
 	"fmt"
@@ -123,6 +124,7 @@ type CancelCase struct {
 	Point   string `json:"point"`   // running | blockedRecv | blockedSend | returned
 	Client  string `json:"client"`  // grpc-cancel | grpc-deadline | http-disconnect | grpcweb-disconnect
 	LateEnd bool   `json:"lateend"` // raw HTTP/1.1 clients, complete bodies: chunked, the terminating chunk arrives 150 ms after the message
+	Gzip    bool   `json:"gzip"`    // http-disconnect, client streams, blockedFirstRecv: the upload is Content-Encoding: gzip and breaks off inside the gzip stream
 	Fam     string `json:"fam"`
 }
 type CancelEv struct {
@@ -132,6 +134,7 @@ type CancelEv struct {
 	Point      string `json:"point"`
 	Client     string `json:"client"`
 	LateEnd    bool   `json:"lateend"`
+	Gzip       bool   `json:"gzip"`
 	Reached    bool   `json:"reached"`    // the handler was in the intended position when the client cancelled
 	CtxDone    bool   `json:"ctxdone"`    // the handler's context ended within the wait
 	DoneBefore bool   `json:"donebefore"` // ... it had already ended before the client did anything
@@ -165,7 +168,7 @@ func (s *sockServer) stop() { s.srv.Close() }
 const cancelWait = 5 * time.Second
 
 func runCancelCase(c CancelCase) (ev CancelEv) {
-	ev = CancelEv{Ev: "Cancel", Case: c.ID, Shape: c.Shape, Point: c.Point, Client: c.Client, LateEnd: c.LateEnd}
+	ev = CancelEv{Ev: "Cancel", Case: c.ID, Shape: c.Shape, Point: c.Point, Client: c.Client, LateEnd: c.LateEnd, Gzip: c.Gzip}
 	defer func() {
 		if p := recover(); p != nil {
 			ev.Crash = fmt.Sprint(p)
@@ -223,10 +226,13 @@ func runCancelCase(c CancelCase) (ev CancelEv) {
 		case "blockedFirstRecv":
 			if md.IsStreamingClient() { // the client has sent nothing yet: the very first Recv blocks
 				position()
-				m := dynamicpb.NewMessage(reqDesc())
-				err := ss.RecvMsg(m)
-				released <- err
-				return err
+				for { // (a gzip upload that breaks off may still yield the messages decoded so far: the end must be an error)
+					m := dynamicpb.NewMessage(reqDesc())
+					if err := ss.RecvMsg(m); err != nil {
+						released <- err
+						return err
+					}
+				}
 			}
 		case "blockedRecv":
 			if md.IsStreamingClient() {
@@ -348,7 +354,26 @@ func runCancelCase(c CancelCase) (ev CancelEv) {
 		// chunked body that never finishes for client streams; complete body otherwise
 		var req bytes.Buffer
 		fmt.Fprintf(&req, "POST %s HTTP/1.1\r\nHost: verif.test\r\nContent-Type: %s\r\n", target, ct)
-		if (c.Shape == "cstream" || c.Shape == "bidi") && c.Point == "blockedFirstRecv" {
+		if (c.Shape == "cstream" || c.Shape == "bidi") && c.Point == "blockedFirstRecv" && c.Gzip {
+			// whole messages, gzip-compressed; the stream breaks off in the gzip trailer (the deflate data is complete) or
+			// inside the deflate data
+			r := newRng(int64(c.ID), 77)
+			var plain, zb bytes.Buffer
+			for i := 1; i <= 1+r.Intn(3); i++ {
+				plain.Write(marshalMsg("json", reqMsg(c.ID, i, 3+r.Intn(40))))
+				plain.WriteByte('\n')
+			}
+			zw := gzip.NewWriter(&zb)
+			zw.Write(plain.Bytes())
+			zw.Close()
+			cut := zb.Len() - 1 - r.Intn(8)
+			if r.Intn(4) == 0 {
+				cut = 10 + r.Intn(zb.Len()-18) // anywhere after the gzip header
+			}
+			fmt.Fprintf(&req, "Content-Encoding: gzip\r\nTransfer-Encoding: chunked\r\n\r\n%x\r\n", cut)
+			req.Write(zb.Bytes()[:cut])
+			req.WriteString("\r\n")
+		} else if (c.Shape == "cstream" || c.Shape == "bidi") && c.Point == "blockedFirstRecv" {
 			fmt.Fprintf(&req, "Transfer-Encoding: chunked\r\n\r\n") // headers only: no message yet
 		} else if c.Shape == "cstream" || c.Shape == "bidi" {
 			fmt.Fprintf(&req, "Transfer-Encoding: chunked\r\n\r\n%x\r\n", len(body))
@@ -392,6 +417,9 @@ func runCancelCase(c CancelCase) (ev CancelEv) {
 	case <-ctxEnded:
 		ev.DoneBefore = c.Point != "returned"
 	default:
+	}
+	if c.Gzip {
+		time.Sleep(100 * time.Millisecond) // the server has read what was sent and waits for the rest
 	}
 	t0 := time.Now()
 	doCancel()
